@@ -4298,7 +4298,11 @@ bool VariableMap::leaveScope()
     if (mScopeInfo.empty())
         return false;
 
-    for (const MapType::value_type& outerVariable : mScopeInfo.top()) {
+    // restore the shadowed bindings newest-first: a name declared more than once in this scope
+    // must end up with the binding it had before the scope was entered
+    const std::vector<MapType::value_type>& outerVariables = mScopeInfo.top();
+    for (auto it = outerVariables.crbegin(); it != outerVariables.crend(); ++it) {
+        const MapType::value_type& outerVariable = *it;
         if (outerVariable.second.id != 0)
             mVariableId[outerVariable.first] = outerVariable.second;
         else
